@@ -19,19 +19,21 @@ typedef std::complex<long double> C;
 static LD const U_ = 5.9604644775390625e-8L;
 static int const EMAG = 26;  // |z| from 2^-26 to 2^26
 static LD const EXPLIM = 80;
+static LD const TINY_ = 1.17549435e-38L;
 #else
 static LD const U_ = 1.1102230246251565e-16L;
 static int const EMAG = 27;  // about 1e-8 .. 1e8
 static LD const EXPLIM = 600;
+static LD const TINY_ = 2.2250738585072014e-308L;
 #endif
 #ifndef VP_K
 #define VP_K 32
 #endif
 
-enum { L_FIELD, L_POWLOG, L_TRIG, L_ITRIG, L_HYP, L_IHYP, L_REALARG, L_PAIRS, L_Q1, L_Q2, L_Q3, L_Q4, L_NEAR_AXIS, L_ON_AXIS, L_SMALL, L_LARGE, L_NEAR_SWITCH, L_PUSHED_OFF_CUT };
+enum { L_FIELD, L_POWLOG, L_TRIG, L_ITRIG, L_HYP, L_IHYP, L_REALARG, L_PAIRS, L_Q1, L_Q2, L_Q3, L_Q4, L_NEAR_AXIS, L_ON_AXIS, L_SMALL, L_LARGE, L_NEAR_SWITCH, L_PUSHED_OFF_CUT, L_WIDE_MODULUS };
 static char const *const labels[] = {"field_arithmetic", "sqrt_pow_exp_log", "trigonometric", "inverse_trigonometric", "hyperbolic", "inverse_hyperbolic", "real_argument_variants",
                                      "inverse_pairs", "quadrant_1", "quadrant_2", "quadrant_3", "quadrant_4", "near_axis", "exactly_on_axis", "modulus_lt_0.5", "modulus_gt_2",
-                                     "modulus_near_formula_switch", "moved_off_branch_cut", nullptr};
+                                     "modulus_near_formula_switch", "moved_off_branch_cut", "modulus_beyond_2^+-27", nullptr};
 static char const *const metrics[] = {"field_err", "powlog_err", "trig_err", "itrig_err", "hyp_err", "ihyp_err", "realarg_err", "pairs_err", nullptr};
 static uint8_t const dict[] = {0, 1, 2, 3, 4, 5, 6, 7};
 static vp_info const info = {"C10", VP_CFG, "", labels, metrics, 96, dict, sizeof(dict)};
@@ -142,6 +144,14 @@ static RFn const rfns[] = {
 };
 static unsigned const NRFN = sizeof(rfns) / sizeof(rfns[0]);
 
+// wide modulus for operations whose true result stays representable (field arithmetic, sqrt, logarithms, inverses)
+static a_real wide_modulus(Tape &t, Ctx &cx)
+{
+    int lim = A_SIZE_REAL == 4 ? 120 : 1000;
+    int e = int(t.u16() % unsigned(2 * lim + 1)) - lim;
+    cx.label(L_WIDE_MODULUS);
+    return a_real(std::ldexp(1.0 + double(t.u32()) / 4294967296.0, e));
+}
 static a_real modulus(Tape &t, Ctx &cx)
 {
     static double const d[] = {2.220446049250313e-16, 1.4901161193847656e-08, 0.1, 0.5, 0.6417, 1.0, 1.5, 2.0, 6.7108864e7, 1e-4, 3.0, 10.0};
@@ -164,9 +174,9 @@ static a_real modulus(Tape &t, Ctx &cx)
 }
 
 // complex argument: modulus class x angle class
-static a_complex gen_z(Tape &t, Ctx &cx, bool &offaxis_interesting)
+static a_complex gen_z(Tape &t, Ctx &cx, bool &offaxis_interesting, bool wide = false)
 {
-    a_real m = modulus(t, cx);
+    a_real m = (wide && t.u8() % 3 == 0) ? wide_modulus(t, cx) : modulus(t, cx);
     uint8_t ac = t.u8() % 10;
     double th;
     a_complex z;
@@ -237,7 +247,8 @@ static bool push_off_cut(Cut cut, a_complex &z, bool side, Ctx &cx)
     return moved;
 }
 
-static bool finite_c(C v) { return std::isfinite((double)v.real()) && std::isfinite((double)v.imag()) && fabsl(v.real()) < 1e300L && fabsl(v.imag()) < 1e300L; }
+static LD const HUGE_ = A_SIZE_REAL == 4 ? 1e37L : 1e300L; // true values beyond this are treated as not representable (skipped)
+static bool finite_c(C v) { return v.real() == v.real() && v.imag() == v.imag() && fabsl(v.real()) < HUGE_ && fabsl(v.imag()) < HUGE_; }
 
 // kappa: max over directions d in {1, i} of |f(z + eps|z|d) - f(z)| / eps
 static LD kappa(Fn const &f, C z, C w, LD s, C fz)
@@ -287,13 +298,14 @@ static void case_fn(Tape &t, Ctx &cx)
     unsigned id = t.u8() % NFN;
     Fn const &f = fns[id];
     bool inter, inter2 = false;
-    a_complex z = gen_z(t, cx, inter), w = {1, 0};
+    bool wide = (f.family == 0 || (f.family == 1 && f.growth == 0)) && strcmp(f.name, "polar") != 0;
+    a_complex z = gen_z(t, cx, inter, wide), w = {1, 0};
     a_real s = 1;
     bool side = t.coin();
     push_off_cut(f.cut, z, side, cx);
     if (f.arity == 2)
     {
-        w = gen_z(t, cx, inter2);
+        w = gen_z(t, cx, inter2, wide);
         if (!strcmp(f.name, "logb")) { push_off_cut(CUT_NEGREAL, w, !side, cx); }
         if (f.growth == 3)
         {
@@ -339,7 +351,8 @@ static void case_fn(Tape &t, Ctx &cx)
     f.call(&r, z, w, s);
     C got((LD)r.real, (LD)r.imag);
     LD k = kappa(f, Z, W, (LD)s, ref);
-    LD denom = U_ * (std::abs(ref) + k) + 1e-300L;
+    // results in or below the subnormal range of the type carry absolute, not relative precision
+    LD denom = U_ * (std::abs(ref) + k) + TINY_ * 4;
     LD err = std::abs(got - ref);
     if (!(got.real() == got.real() && got.imag() == got.imag())) { err = 1e300L; }
     LD ratio = err / denom;
